@@ -1,4 +1,4 @@
-\* exhaustive, repaired flags: collection and partition in the default database, deeper (re-creation, restart with replay of a drop)
+\* exhaustive, repaired flags: collection and partition in the default database, deeper (re-creation, restart with replay of a drop, operations overtaking the re-creation; no injected rejections - those are in MCq and MC)
 SPECIFICATION Spec
 CHECK_DEADLOCK FALSE
 VIEW view
@@ -12,12 +12,14 @@ CONSTANTS
   Parts = {"p1"}
   UseDefault = TRUE
   Kinds = {"alterDatabase", "createIndex", "alterIndex", "loadPartitions"}
-  WithFail = TRUE
+  WithFail = FALSE
   WithInflight = TRUE
   WithSwap = TRUE
+  WithOvertake = TRUE
   WithRestart = TRUE
   AlterDbChecked = TRUE
   AlterIdxRecheck = TRUE
   DropGuarded = TRUE
   CreateFromDrop = TRUE
+  ProbeAfterDrop = TRUE
   TabT = {0, 1, 2, 3}
